@@ -182,7 +182,7 @@ func (lr *lifeRun) observe(id string) {
 			w := newRec()
 			// QUERY is allowed by neither A nor B: the preflight fails at the METHOD step (a failure at the header step is
 			// answered as a success with the full list in debug mode and would not go through the failure path)
-			m.Wrap(okHandler).ServeHTTP(w, newReq("OPTIONS", http.Header{hOrigin: {o}, hACRM: {"QUERY"}}))
+			handlerFor(m, okHandler).ServeHTTP(w, newReq("OPTIONS", http.Header{hOrigin: {o}, hACRM: {"QUERY"}}))
 			st := w.status
 			if st == 0 {
 				st = 200
@@ -212,6 +212,7 @@ func (lr *lifeRun) pair(a, b string) {
 }
 
 func (lr *lifeRun) reset(suite []reqSpec) {
+	clear(earlyWrapped)
 	lr.suite = suite
 	lr.mws = map[string]*cors.Middleware{}
 	lr.t.emit(map[string]any{"ev": "Reset"})
@@ -225,6 +226,7 @@ func (lr *lifeRun) resetKeep(suite []reqSpec) {
 		lr.reset(suite)
 		return
 	}
+	clear(earlyWrapped)
 	lr.mws = map[string]*cors.Middleware{}
 	lr.t.emit(map[string]any{"ev": "Reset", "keep": true})
 }
@@ -234,11 +236,15 @@ func (lr *lifeRun) newMW(id, cfgID string, cfg cors.Config) {
 	lr.t.emit(map[string]any{"ev": "New", "mw": id, "cfg": cfgID, "ok": err == nil, "nilmw": m == nil})
 	if err == nil {
 		lr.mws[id] = m
+		if lr.t.n%2 == 0 {
+			wrapEarly(m) // one handler for the middleware's whole life, as an application would have
+		}
 	}
 }
 
 func (lr *lifeRun) zero(id string) {
 	lr.mws[id] = new(cors.Middleware)
+	wrapEarly(lr.mws[id]) // wrapped BEFORE it is configured
 	lr.t.emit(map[string]any{"ev": "Zero", "mw": id})
 }
 
@@ -342,7 +348,7 @@ func scribbleConfig(c *cors.Config, with string) {
 }
 
 // noise performs operations that, by the documentation, leave the middleware's behaviour exactly as it is: in-place writes
-// to a Config() result, a rejected Reconfigure, the no-op m.Reconfigure(m.Config()), another Config(). Every driver applies it
+// to a Config() result, a rejected Reconfigure, another Config(). Every driver applies it
 // to the middlewares it builds, so that each property is also checked AFTER such operations. Panics are C17's business.
 func noise(m *cors.Middleware) {
 	defer func() { recover() }()
@@ -358,10 +364,11 @@ func noise(m *cors.Middleware) {
 	bad := cors.Config{Origins: []string{"https://other.example"}, MaxAgeInSeconds: -7}
 	m.Reconfigure(&bad)
 	if c := m.Config(); c != nil {
-		m.Reconfigure(c)
 		scribbleConfig(c, "x-evil")
 	}
 	m.Config()
+	// (No m.Reconfigure(m.Config()) here: it would replace the configuration AS SPELLED by its normal form and hide whatever
+	// depends on the spelling - order of entries, duplicates, letter case. The round trip has its own check, C06.)
 }
 
 // nearTweaks: the semantic configurations that differ from s in exactly one aspect.
@@ -559,7 +566,7 @@ func scribbleHeader(h http.Header, with string) {
 // place, every request- and response-header slice it can reach.
 func (lr *lifeRun) mutatingServe(id string, with string) {
 	m := lr.mws[id]
-	h := m.Wrap(http.HandlerFunc(func(w http.ResponseWriter, r *http.Request) {
+	h := handlerFor(m, http.HandlerFunc(func(w http.ResponseWriter, r *http.Request) {
 		scribbleHeader(w.Header(), with)
 		scribbleHeader(r.Header, with)
 		w.WriteHeader(200)
@@ -741,7 +748,7 @@ func cmdLife(args []string) {
 				lr.observe("m2")
 				for _, x := range []string{"m1", "m2"} {
 					if m := lr.mws[x]; m != nil {
-						act, pf := originAllowedByMiddleware(m.Wrap(okHandler), "https://reused.example")
+						act, pf := originAllowedByMiddleware(handlerFor(m, okHandler), "https://reused.example")
 						t.emit(map[string]any{"ev": "Reused", "mw": x, "allowed": act && pf, "either": act || pf})
 					}
 				}
